@@ -198,6 +198,20 @@ def run(M, c):
             got = repr(e)
         M.check("operators", ok, f"C20/operator{name}" + (":day-component" if d.days else ""), "Time +/- timedelta wrong",
                 t=str(t), delta_us=c["td"], got=got)
+    # a zone-aware Time (region zone) shifted by weeks or months worth of hours: still plain modulo-24h clock arithmetic
+    if c["t"] % 5 == 0:
+        zname = ("America/Santiago", "Europe/Paris", "Australia/Lord_Howe")[c["t"] // 5 % 3]
+        ta = T(t.hour, t.minute, t.second, t.microsecond, tzinfo=M.pendulum.timezone(zname))
+        big = (c["td"] % 400 - 200) * 24 + h % 24
+        try:
+            ya = ta.add(hours=big, microseconds=us)
+            yb = ya.subtract(hours=big, microseconds=us) if isinstance(ya, T) else None
+            exp_a = (c["t"] + big * 3600 * US + us) % DAY
+            M.check("operators", type(ya) is T and tus(ya) == exp_a and yb is not None and tus(yb) == c["t"], "C20/aware-time:large-amount",
+                    "a zone-aware Time shifted by a large amount is not modulo-24h exact (or subtract does not undo add)", t=str(ta), zone=zname,
+                    hours=big, us=us, got=str(ya), back=str(yb))
+        except Exception as ex:  # noqa: BLE001
+            M.check("operators", False, f"C20/aware-time:raised-{type(ex).__name__}", "Time.add on a zone-aware Time raised", t=str(ta), hours=big)
     # the operand being a pendulum Duration / Interval (timedelta subclasses): below one day -> exact (a negative one may
     # also be rejected, see above), from one whole day on (weeks, days, an interval of a week) -> TypeError
     P = M.pendulum
